@@ -33,8 +33,8 @@ PLAN = {
     "C17": [("prod", 26000, 2000000, []), ("san", 2500, 50000, []), ("ndebug", 4000, 60000, [])],
     "C18": [("trng-getrandom", 40000, 1000000, []), ("trng-getentropy", 40000, 1000000, []), ("trng-syscall", 40000, 1000000, []),
             ("trng-devurandom", 40000, 1000000, []), ("prod", 15000, 300000, []), ("san", 2500, 50000, []), ("ndebug", 6000, 100000, [])],
-    "C19": [("prod", 100000, 2500000, []), ("hook", 30000, 700000, []), ("san", 4000, 60000, []), ("ndebug", 8000, 100000, []), ("trng-devurandom", 8000, 100000, [])],
-    "C20": [("prod", 300000, 5000000, []), ("san", 12000, 150000, []), ("ndebug", 30000, 300000, [])],
+    "C19": [("prod", 100000, 2500000, []), ("hook", 30000, 700000, []), ("san", 4000, 60000, []), ("ndebug", 8000, 100000, []), ("trng-devurandom", 8000, 100000, []), ("hookvol", 6000, 100000, [])],
+    "C20": [("prod", 300000, 5000000, []), ("san", 12000, 150000, []), ("ndebug", 30000, 300000, []), ("hookvol", 20000, 400000, [])],
 }
 CFG_VARIANTS = ["cfg-%s-%s-%s" % (c, o, z) for c in ("gcc", "clang") for o in ("O0", "O1", "O2", "O3", "Os") for z in ("bz", "vol")]
 CFG_QUICK = ["cfg-gcc-O2-vol", "cfg-clang-O3-vol", "cfg-gcc-O0-bz"]
